@@ -314,11 +314,11 @@ Lemma poly_simplify_unfold O ts ctx :
   poly_simplify O ts ctx =
   match simp_vars ts ctx with
   | [] =>
-      match opt_list ctx, new_self ts ctx with
-      | _ :: _, _ => raise (Escape "AssertionError")
-      | [], [] => ret []
-      | [], [t] => ret [row_to_term (simp_vars ts ctx) (term_to_row (simp_vars ts ctx) t)]
-      | [], _ => raise ValueErr
+      if existsb (fun t => qlt (tconst t) 0) (opt_list ctx) then raise ValueErr else
+      match new_self ts ctx with
+      | [] => ret []
+      | [t] => ret [row_to_term (simp_vars ts ctx) (term_to_row (simp_vars ts ctx) t)]
+      | _ => raise ValueErr
       end
   | _ =>
   bind (reduce_polytope O (simp_vars ts ctx) (map (term_to_row (simp_vars ts ctx)) (new_self ts ctx))
@@ -372,7 +372,7 @@ Proof.
   rewrite poly_simplify_unfold. change (match ctx with Some c => list_diff ts c | None => ts end) with (new_self ts ctx).
   destruct (simp_vars ts ctx) as [|v l] eqn:E.
   - (* m = 0 *)
-    destruct (opt_list ctx); [|discriminate].
+    destruct (existsb _ (opt_list ctx)); [discriminate|].
     destruct (new_self ts ctx) as [|t [|t' ns]]; intros H; try discriminate; inversion H; subst r.
     + exists []. split; constructor.
     + exists [t]. split; [apply subseq_refl|reflexivity].
@@ -517,10 +517,10 @@ End Simplify.
 
 Theorem simplify_errors_only O ts ctx e :
   poly_simplify O ts ctx = inr e ->
-  e = ValueErr \/ e = OracleMiss \/ e = Escape "AssertionError".
+  e = ValueErr \/ e = OracleMiss.
 Proof.
   rewrite poly_simplify_unfold. destruct (simp_vars ts ctx) as [|v l].
-  - destruct (opt_list ctx); [|intros H; inversion H; tauto].
+  - destruct (existsb _ (opt_list ctx)); [intros H; inversion H; tauto|].
     destruct (new_self ts ctx) as [|t [|t' ns]]; intros H; inversion H; tauto.
   - intros H. apply bind_inr in H. destruct H as [H|[red [_ H]]]; [|discriminate].
     apply reduce_polytope_errors_only in H. tauto.
